@@ -15,12 +15,17 @@ META = {
              "reused this holds in both write modes although immediate-write mode releases twice; closed counterexamples "
              "lost_update_with_reset (3 calls, ID reuse + double release), lost_update_read_first, lost_update_write_late, "
              "stale_object_not_linearizable (delete racing an increment that already fetched the object); classify_sound over five facts."),
-    "note": ("PARTIAL in one respect: for the repaired object re-check (fact rechecksObjectUnderGuard = yes) there is no theorem yet, so "
-             "the classification can be `violated` or `undetermined`, never `holds`; holds_partial proves linearizability of all "
-             "histories on one live object.  The model's calls are abstract read-modify-write functions Int -> Int (increment, set, "
-             "clear); the forced schedules drive IncrementInt64 only (the ten Increment bodies, PatchFields, Set, Uint32Slice*, "
-             "deleteHandler share the shape, which extract/c09.go checks syntactically).  The Go scheduler is driven, not enumerated. "
-             "Trusted: Lean kernel, extract/c09.go, harness/c09.go, sync.Cond semantics, C15."),
+    "note": ("The model's calls are abstract read-modify-write functions Int -> Int (increment, set, clear, set-if-absent, "
+             "set-if-present, delete); `holds` needs every body shape guarded (including: nothing is read from the object behind "
+             "Save, no decision comes from a test made before the guard), guard IDs never reused and the object re-check.  The "
+             "forced increment schedules drive IncrementInt64 (the ten Increment bodies, PatchFields, Set, Uint32Slice*, "
+             "deleteHandler share the shape, which extract/c09.go checks syntactically; the stress part rotates four variants); "
+             "conditional Sets and creating field patches are forced through their own hook points (mode setx).  Object identity "
+             "(Hv.Stale) is executed by the driver next to Hv.Lin in the fetch / del cases; what a re-opened swamp finds after "
+             "`reload` (delete entries written by the chronicler) is driver-level, Hv.Stale has no file.  In immediate-write mode "
+             "the harness starts a call's file writer only when no earlier writer is pending (hook save.released), so the "
+             "'second writer is skipped because one is active' interleaving is not exercised.  The Go scheduler is driven, not "
+             "enumerated.  Trusted: Lean kernel, extract/c09.go, harness/c09.go + c09set.go, sync.Cond semantics, C15."),
     "design_ref": "§8 C09",
 }
 
